@@ -438,7 +438,13 @@ func GenPowerLevels(version string) []Cell {
 	edits = append(edits, `{"users":{"%S":50},"users_default":60,"events":{"m.room.name":100}}`, `{"users":{"%S":50,"%T":10},"users_default":60}`, `{"users":{"%S":50,"%T":10},"users_default":60,"events":{"m.room.name":100}}`, `{"users":{"%S":50,"%T":60},"users_default":60,"events":{"m.room.name":100}}`)
 	for oi, old := range olds {
 		for ei, ed := range edits {
-			for si, sender := range []string{S, C} {
+			senders := []string{S, C}
+			if refversions.Get(version).PrivilegedCreators {
+				// the additional creator as sender (in particular of the room's first power-levels event, when the levels in
+				// force are the defaults the library makes up for the create event's sender)
+				senders = append(senders, "@d:a.org")
+			}
+			for si, sender := range senders {
 				for mi, sm := range []string{"join", "leave"} {
 					extra := ""
 					if refversions.Get(version).PrivilegedCreators {
@@ -447,10 +453,14 @@ func GenPowerLevels(version string) []Cell {
 					st := []authgen.SE{createSE(version, 0, extra)}
 					rep := strings.NewReplacer("%S", sender, "%T", T)
 					strip := func(c string) string { return c }
-					if sender == C && refversions.Get(version).PrivilegedCreators {
+					if (sender == C || sender == "@d:a.org") && refversions.Get(version).PrivilegedCreators {
 						// a v12 creator may not appear in users: drop the sender entry from both contents
 						strip = func(c string) string {
-							c = senderEntry.ReplaceAllString(c, "")
+							re := senderEntry
+							if sender != C {
+								re = regexp.MustCompile(`"` + regexp.QuoteMeta(sender) + `":("[^"]*"|[0-9.]+),?`)
+							}
+							c = re.ReplaceAllString(c, "")
 							return strings.ReplaceAll(c, ",}", "}")
 						}
 					}
